@@ -341,10 +341,19 @@ class Eval:
         # iteration plumbing: one abstract element per loop
         if p.endswith('::iter_mut') or p.endswith('::iter'):
             return ('iter', self.fresh_blk(args[0]))
+        targs = cal.get('decl_args') or cal.get('args') or []
+
+        def as_iter(v, ty):
+            # `for c in x` / `zip(x, y)` over a slice or array reference is `x.iter()` / `x.iter_mut()`
+            if not (isinstance(v, tuple) and v[0] == 'iter') and isinstance(ty, str) and re.match(r"^&('\w+ )?(mut )?\[", ty):
+                return ('iter', self.fresh_blk(v))
+            return v
         if p.endswith('iter::zip'):
-            return ('iter', ('tuple', (self.elem(args[0]), self.elem(args[1]))))
+            a0 = as_iter(args[0], targs[0] if len(targs) > 0 else None)
+            a1 = as_iter(args[1], targs[1] if len(targs) > 1 else None)
+            return ('iter', ('tuple', (self.elem(a0), self.elem(a1))))
         if cal.get('decl') == 'std::iter::IntoIterator::into_iter':
-            return args[0]
+            return as_iter(args[0], targs[0] if targs else None)
         if cal.get('decl') == 'std::iter::Iterator::next':
             it = args[0]
             if isinstance(it, tuple) and it[0] == 'ref':
